@@ -26,7 +26,9 @@ import vlib
 LEVEL = "proof"
 MODULE = "Sqfs.Props.C12"
 REQUIRED = ["Sqfs.C12.read_at_spec", "Sqfs.C12.read_at_never_short", "Sqfs.C12.write_at_spec",
-            "Sqfs.C12.write_at_never_short", "Sqfs.C12.write_all_spec", "Sqfs.C12.write_all_never_short"]
+            "Sqfs.C12.write_at_never_short", "Sqfs.C12.write_all_spec", "Sqfs.C12.write_all_never_short",
+            "Sqfs.C12.istream_bytes", "Sqfs.C12.client_history_script_independent", "Sqfs.C12.read_skip_splice_spec",
+            "Sqfs.C12.get_line_chunking_independent", "Sqfs.C12.record_to_memory_spec"]
 WRAP = ["read", "write", "pread", "pwrite", "pread64", "pwrite64", "lseek", "lseek64", "ftruncate", "ftruncate64", "fsync"]
 ISTREAM_C = "lib/sqfs/src/io/istream.c"
 OSTREAM_C = "lib/sqfs/src/io/ostream.c"
